@@ -359,6 +359,8 @@ def layout_sides(prog: Program) -> RuleResult:
     mapping_names = {
         t.id for st in ast.walk(fn) if isinstance(st, ast.Assign) and isinstance(st.value, ast.Attribute) and st.value.attr == "object_species"
         for t in st.targets if isinstance(t, ast.Name)
+    } | {
+        dotted(x) for x in ast.walk(fn) if isinstance(x, ast.Attribute) and x.attr == "object_species" and isinstance(x.ctx, ast.Load) and dotted(x) is not None
     } or {"mapping"}
     species_var = "root_species"
     for loop in ast.walk(fn):
